@@ -362,8 +362,11 @@ fn gen_scenario(rng: &mut Rng, n_signers: usize, thorough: bool) -> Scenario {
         } else {
             PubMode::Ok
         };
-        let mut others = vec![];
-        for i in 1..n_signers {
+        // fixture signer 1 registers in every epoch (announced signer sets are never empty: an empty
+        // next-signer set makes the signer's message computation fail, which the model leaves out);
+        // the others come and go
+        let mut others = vec![1];
+        for i in 2..n_signers {
             if rng.chance(1, 3) {
                 others.push(i);
             }
@@ -818,14 +821,14 @@ fn main() {
     let args = hc::parse_args();
     let mut rng = Rng::new(args.seed);
     let mut sink = Sink::new(&args);
-    let mut n_runs = if args.thorough { 400 } else { 36 };
+    let mut n_runs = if args.thorough { 320 } else { 36 };
     if let Some(p) = args.extra.iter().position(|a| a == "--runs") {
         n_runs = args.extra[p + 1].parse().expect("--runs N");
     }
     let work_root = PathBuf::from(std::env::var("VERIF_WORK").unwrap_or_else(|_| ".".into()));
 
     let fixture = MithrilFixtureBuilder::default()
-        .with_signers(3)
+        .with_signers(4)
         .with_protocol_parameters(params(true))
         .build();
     let signers = fixture.signers_with_stake();
